@@ -35,7 +35,7 @@ func guarded(f func()) (pan any, timedOut bool) {
 }
 
 func C10(c *core.Ctx) {
-	c.Rule = "each public entry point on each untrusted input kind, under recover and a 10 s watchdog: abi.QuoteToProto / verify.RawTdxQuote / validate.RawTdxQuote on all truncations, size-field boundary values and mutations of valid quotes; abi.QuoteToAbiBytes / abi.CheckQuoteV4 / verify.TdxQuote / validate.TdxQuote / verify.ExtractChainFromQuote on every single structural mutation of a valid message (each sub-message nil, each bytes field nil/empty/short/long, RTMR count 0..5, numeric boundaries, nil message); arbitrary collateral / CRL / header responses; arbitrary PEM / DER in the certificate chain; arbitrary DER in the SGX extension through pcs.PckCertificateExtensions. The model's verdict is compared wherever the entry point is modelled. non-trivial = input reaches beyond the first size check; distinct = distinct (entry point, input)"
+	c.Rule = "each public entry point on each untrusted input kind, under recover and a 10 s watchdog: abi.QuoteToProto / verify.RawTdxQuote / validate.RawTdxQuote on all truncations, size-field boundary values and mutations of valid quotes; abi.QuoteToAbiBytes / abi.CheckQuoteV4 / verify.TdxQuote / validate.TdxQuote / verify.ExtractChainFromQuote on every single structural mutation of a valid message (each sub-message nil, each bytes field nil/empty/short/long, RTMR count 0..5, numeric boundaries, nil message); arbitrary collateral / CRL / header responses; arbitrary PEM / DER in the certificate chain; arbitrary DER in the SGX extension through pcs.PckCertificateExtensions (random mutations plus every single byte replaced by 0x00 / 0x13 / 0x7f / 0x80 / 0xff). The model's verdict is compared wherever the entry point is modelled. non-trivial = input reaches beyond the first size check; distinct = distinct (entry point, input)"
 	r := c.Rng
 	w, err := world.HonestWorld(r, baseTime)
 	if err != nil {
@@ -167,6 +167,16 @@ func C10(c *core.Ctx) {
 			m[r.Intn(len(m))] = byte(r.Intn(256))
 		}
 		ders = append(ders, m)
+	}
+	// every single byte replaced by each boundary value (reaches every length, tag and OID arc)
+	for p := range good {
+		for _, v := range []byte{0x00, 0x13, 0x7f, 0x80, 0xff} {
+			if good[p] != v {
+				m := append([]byte{}, good...)
+				m[p] = v
+				ders = append(ders, m)
+			}
+		}
 	}
 	for i, d := range ders {
 		d := d
